@@ -61,6 +61,7 @@ func (rcScenario) Build(cfg string) ([]func(), func(*vsched.Sched) []string) {
 	start := time.Unix(4_000_000_000, 0)
 	width := time.Second
 	ctr := faststats.NewRollingCounter(width, n, start)
+	nameVars(&ctr, "rc")
 	var rb *faststats.RollingBuckets
 	_ = rb
 	progs := strings.Split(cfgStr(cfg, "ops"), "/")
